@@ -16,6 +16,9 @@ package c08
 import (
 	"context"
 	"fmt"
+	"io"
+	"log/slog"
+	"regexp"
 	"strings"
 
 	"github.com/ajitpratap0/GoSQLX/pkg/models"
@@ -47,9 +50,10 @@ type machine struct {
 	kind   string // parser | tokenizer
 	ops    []op
 	probes []string
-	// run executes history h (indices into ops; extra holds per-step ad-hoc ops
-	// for the sweep families) on a new instance, calls step after every
-	// transition, then runs probe pi and returns (got, want).  pi < 0: no probe.
+	// run executes history h (indices into ops) on a newly constructed instance,
+	// calls step after every transition, then runs probe pi on the instance and
+	// returns (got, want) where want is the same probe on a new instance built
+	// with the reference configuration.  pi < 0: no probe.
 	run func(h []int, pi int, step func(i int, in inst)) (got, want string)
 }
 
@@ -79,6 +83,48 @@ func (m *machine) minimize(h []int, pi int) []int {
 	return cur
 }
 
+// after names the operation class a failure is attributed to: the last
+// operation of the smallest failing sub-history that is not a configuration
+// call (a configuration call only makes a carried-over field visible).
+func (m *machine) after(mh []int) string {
+	for i := len(mh) - 1; i >= 0; i-- {
+		if cl := m.ops[mh[i]].class; cl != "option" {
+			return cl
+		}
+	}
+	if len(mh) > 0 {
+		return "option"
+	}
+	return "nothing"
+}
+
+var (
+	locRE   = regexp.MustCompile(`loc=\d+:\d+|at line \d+, column \d+|line=\d+ col=\d+`)
+	perrRE  = regexp.MustCompile(`parse error at line \d+, column \d+ \(token (\d+)\)`)
+	ctxtRE  = regexp.MustCompile(`(?m)^\s+\d+ \| .*$|^\s+\^+\s*$`)
+	blankRE = regexp.MustCompile(`\n\s*\n+`)
+)
+
+// noLoc removes everything that renders an error location: the numbers, the
+// "line x, column y" form of a recovery error, and the source excerpt with its
+// caret that Error() prints only when a location is present.
+func noLoc(s string) string {
+	s = perrRE.ReplaceAllString(s, "parse error at token $1")
+	s = locRE.ReplaceAllString(s, "@")
+	s = ctxtRE.ReplaceAllString(s, "")
+	return blankRE.ReplaceAllString(s, "\n")
+}
+
+// aspect is the probe's name, or "location" when the two answers differ in
+// nothing but the reported error location (so that one stale position table
+// is one signature whichever probe's error happens to show it).
+func aspect(probeName, got, want string) string {
+	if noLoc(got) == noLoc(want) {
+		return "location"
+	}
+	return probeName
+}
+
 // check runs one history completely: state hashes and dirty checks on the
 // first execution, then every probe on its own re-execution.
 func (m *machine) check(c *common.Ctx, h []int) {
@@ -103,11 +149,8 @@ func (m *machine) check(c *common.Ctx, h []int) {
 		}
 		nfail++
 		mh := m.minimize(h, pi)
-		after := "nothing"
-		if len(mh) > 0 {
-			after = m.ops[mh[len(mh)-1]].class
-		}
-		c.Fail("probe-differs:"+m.kind+":"+pn+":after-"+after,
+		mg, mw := m.run(mh, pi, nil) // classify what the smallest sub-history shows
+		c.Fail("probe-differs:"+m.kind+":"+aspect(pn, mg, mw)+":after-"+m.after(mh),
 			fmt.Sprintf("probe %q after history [%s] (smallest failing sub-history [%s])\n got: %s\nwant: %s  (same call on a newly constructed instance with the holder's configuration)",
 				pn, m.names(h), m.names(mh), common.Trim(got, 700), common.Trim(want, 700)))
 	}
@@ -243,12 +286,14 @@ func (s *tinst) dump() string { return s.cfg.String() + "|" + probe.Dump(s.t) }
 // holder's dialect stays, everything else is like new.
 func (s *tinst) dirty(after string) []string {
 	ref := probe.TCfg{}
-	if after == "Reset" {
-		ref = s.cfg
-	}
-	d := probe.DiffFields(probe.Fields(s.t), probe.Fields(ref.New()))
-	for i := range d {
-		d[i] = "Tokenizer." + d[i]
+	var d []string
+	for _, f := range probe.DiffFields(probe.Fields(s.t), probe.Fields(ref.New())) {
+		if after == "Reset" && (f == "dialect" || f == "keywords") {
+			// Reset is documented not to touch them; whether they hold what the
+			// model says is decided by the probes and by the check after Put
+			continue
+		}
+		d = append(d, "Tokenizer."+f)
 	}
 	return d
 }
@@ -260,6 +305,8 @@ const (
 )
 
 var tooLarge []byte
+
+var quietLogger = slog.New(slog.NewTextHandler(io.Discard, nil))
 
 type tAdhoc func(s *tinst)
 
@@ -292,6 +339,8 @@ func tokenizerMachine() (*machine, func(pre []int, ad tAdhoc, pi int, step func(
 		{op{"ctx-cancelled", "cancel", ""}, func(s *tinst) { s.t.TokenizeContext(probe.NewCountCtx(0, context.Canceled), longIn) }},
 		{op{"ctx-cancel-mid", "cancel", ""}, func(s *tinst) { s.t.TokenizeContext(probe.NewCountCtx(3, context.Canceled), longIn) }},
 		{op{"set-mysql", "option", ""}, func(s *tinst) { s.t.SetDialect(keywords.DialectMySQL); s.cfg.Dialect = keywords.DialectMySQL }},
+		// a debug logger changes no result; Reset/Put are documented to drop it, which the field comparison checks
+		{op{"set-logger", "option", ""}, func(s *tinst) { s.t.SetLogger(quietLogger) }},
 		// Reset keeps the holder's dialect (documented), see tinst.dirty
 		{op{"reset", "reset", "Reset"}, func(s *tinst) { s.t.Reset() }},
 		{op{"put", "put", "Put"}, func(s *tinst) { tokenizer.PutTokenizer(s.t); s.cfg = probe.TCfg{} }},
@@ -389,7 +438,7 @@ func Check() *common.Check {
 		Level: "model_checking",
 		Rule: "every history over the parser alphabet (14 operations: Parse valid/invalid, ParseWithPositions multi-line invalid, ParseContext live / already cancelled / cancelled at the 6th poll, " +
 			"ParseWithRecovery, parse past the recursion limit, ApplyOptions strict / mysql, Reset, Release, PutParser with the same object then used as the next holder's, NewParser) and the tokenizer alphabet " +
-			"(10 operations: Tokenize valid / unterminated string / comments / larger than MaxInputSize, TokenizeContext cancelled / cancelled at the 4th poll, SetDialect, Reset, PutTokenizer, New) of length 0..4 (quick) / 0..5 (thorough), " +
+			"(11 operations: Tokenize valid / unterminated string / comments / larger than MaxInputSize, TokenizeContext cancelled / cancelled at the 4th poll, SetDialect, SetLogger, Reset, PutTokenizer, New) of length 0..4 (quick) / 0..5 (thorough), " +
 			"each executed from a newly constructed instance with the reference configuration in lock-step, followed by each of 10 parser / 6 tokenizer probes on its own re-execution; plus one-operation histories feeding every proper token prefix of 10 statements and 6 inputs nested past the depth limit to each of 4 parse entry points, " +
 			"and every byte prefix of 3 inputs to both tokenize entry points; distinct = distinct history; non-trivial = at least two operations",
 		Assume: []string{
@@ -479,7 +528,7 @@ func Check() *common.Check {
 							c.Count("probe_calls", 1)
 							if g, w := prun(nil, ad, pi, nil); g != w {
 								bad = true
-								c.Fail("probe-differs:parser:"+pr.Name+":after-"+en.class,
+								c.Fail("probe-differs:parser:"+aspect(pr.Name, g, w)+":after-"+en.class,
 									fmt.Sprintf("probe %q after %s(%q)\n got: %s\nwant: %s  (same call on a newly constructed parser)", pr.Name, en.name, in, common.Trim(g, 600), common.Trim(w, 600)))
 							}
 						}
@@ -527,7 +576,7 @@ func Check() *common.Check {
 								c.Count("probe_calls", 1)
 								if g, w := trun(nil, ad, pi, nil); g != w {
 									bad = true
-									c.Fail("probe-differs:tokenizer:"+pr.Name+":after-"+class,
+									c.Fail("probe-differs:tokenizer:"+aspect(pr.Name, g, w)+":after-"+class,
 										fmt.Sprintf("probe %q after %s(%q)\n got: %s\nwant: %s  (same call on a newly constructed tokenizer)", pr.Name, en, in, common.Trim(g, 600), common.Trim(w, 600)))
 								}
 							}
